@@ -18,7 +18,16 @@ def correspond(ctx, C):
     n = 150 if ctx.tier == "quick" else 6000
     if ctx.search:
         n *= 3
-    rows = C.run_family("rexp", n, ctx.seed, ctx.tier, replay=S.replay_file(ctx, C), race=True)
+    try:
+        rows = C.run_family("rexp", n, ctx.seed, ctx.tier, replay=S.replay_file(ctx, C), race=True)
+    except C.HarnessCrash as e:
+        # the process died (fatal runtime error such as "concurrent map read and map write" cannot be recovered): the case it
+        # was running is the failing input
+        import history_common as H
+        case = C.regenerate_case(e.fam, e.case_id, e.seed, e.tier, replay=S.replay_file(ctx, C))
+        info = {"what": "the process died while running this case: " + H.first_line(e.stderr), "stderr_tail": e.stderr[-1500:]}
+        cov = {"evaluations": 0, "distinct_nontrivial": 0, "rule": RULE, "samples": [], "died_in_case": e.case_id}
+        return {"coverage": cov, "violations": [(case, info)], "known": []}
     stderr = C.LAST_STDERR["text"]
     viol, distinct, samples = [], set(), []
     by_id = {r["case"]["id"]: r["case"] for r in rows}
